@@ -1,4 +1,5 @@
 """C12 — chunked / multi-process / multi-thread execution = sequential execution (DESIGN.md §4 C12)."""
+import functools
 import itertools
 import json
 import os
@@ -500,6 +501,340 @@ def compare_map_model(R, cases, observations):
             R.mismatch("map:reassembly", c, impl, mo)
 
 
+
+
+# =================================================================== 3b. map / map_iter END TO END against Model/C12_Map.v
+import contextlib  # noqa: E402
+import types  # noqa: E402
+import importlib.machinery  # noqa: E402
+
+
+@contextlib.contextmanager
+def stub_tqdm(log):
+    """a stand-in for the (absent) tqdm package: records the `total` it is given and yields the items of the iterable"""
+    mod = types.ModuleType("tqdm")
+    mod.__spec__ = importlib.machinery.ModuleSpec("tqdm", None)
+
+    def tqdm(iterable, total=None, **kw):
+        log.append(total)
+        return iter(iterable)
+    mod.tqdm = tqdm
+    old = sys.modules.get("tqdm")
+    sys.modules["tqdm"] = mod
+    try:
+        yield
+    finally:
+        if old is None:
+            sys.modules.pop("tqdm", None)
+        else:
+            sys.modules["tqdm"] = old
+
+
+def full_fn(td, spec):
+    """the function family of the map-full stream (Extract/D_C12.v::fn_full): rows identified by their position along dim"""
+    x = td.get("x")
+    if x.numel() == 0:
+        return TensorDict({"y": x * 2 + 1}, batch_size=td.batch_size)
+    a = (int(x.reshape(-1)[0]) // spec["stride"]) % spec["n"]
+    if spec["isnone"][a]:
+        return None
+    y = x * 2 + 1
+    if not spec["unbound"]:
+        if spec["kind"] == "first":
+            y = y.narrow(spec["d"], 0, 1)
+        elif spec["kind"] == "dup":
+            y = torch.cat([y, y], spec["d"])
+    return TensorDict({"y": y, "n": TensorDict({"z": y + 5}, batch_size=y.shape)}, batch_size=y.shape)
+
+
+def full_spec(case):
+    bs = case["bs"]
+    rank = len(bs)
+    dim = case["dim"]
+    d = dim + rank if dim < 0 else dim
+    valid = 0 <= d < rank
+    dd = d if valid else 0
+    return {"kind": case["fn"], "isnone": case["isnone"], "unbound": case["chunksize"] == 0, "d": dd, "n": max(1, bs[dd]),
+            "stride": M.numel(bs[dd + 1:]), "valid": valid}
+
+
+def gen_full_case(rng):
+    rank = rng.choice([1, 1, 2, 2, 3])
+    bs = [rng.choice([1, 2, 3]) for _ in range(rank)]
+    dtrue = rng.randrange(rank)
+    n = rng.choice([0, 1, 2, 3, 3, 4, 5, 5, 6, 7])
+    bs[dtrue] = n
+    r = rng.random()
+    dim = dtrue if r < 0.45 else dtrue - rank if r < 0.93 else rng.choice([rank, -rank - 1, rank + 1])
+    mode = rng.choice(["cs", "cs", "cs", "nc", "nc", "cs0", "cs0", "default", "default", "both"] if rng.random() < 0.2 else ["cs", "cs", "nc", "nc", "cs0", "default"])
+    cs = nc = None
+    if mode in ("cs", "both"):
+        cs = rng.randrange(1, n + 3)
+    if mode in ("nc", "both"):
+        nc = rng.randrange(1, n + 3)
+    if mode == "cs0":
+        cs = 0
+    fnk = rng.choice(["rows", "rows", "mixed", "mixed", "first", "dup"])
+    isnone = [rng.random() < 0.35 for _ in range(max(n, 1))] if fnk == "mixed" else [False] * max(n, 1)
+    if fnk == "mixed":
+        fnk = rng.choice(["rows", "rows", "rows", "first", "dup"])
+    case = {"op": "mapfull", "bs": bs, "dim": dim, "chunksize": cs, "num_chunks": nc, "workers": rng.choice([1, 2, 2, 3, 4]),
+            "gen": rng.random() < 0.5, "pbar": rng.random() < 0.3, "out": rng.choice(["none", "none", "regular", "regular", "shared", "shared"]),
+            "odelta": 0, "fn": fnk, "isnone": isnone}
+    if case["out"] != "none" and rng.random() < 0.12:
+        case["odelta"] = rng.choice([-1, 1])
+    if case["out"] == "shared" and rng.random() < 0.08:
+        case["out"] = "memmap"
+    if rng.random() < 0.25:
+        case["iter"] = True
+        case["out"] = "none"
+        case["odelta"] = 0
+        if rng.random() < 0.5:
+            case["shuffle"] = True
+            case["gen"] = rng.random() < 0.92
+            case["order"] = rng.sample(range(n + 3), n + 3)
+    return case
+
+
+def pos_along(t, d, spec, length=None):
+    """for every position along dim d of a result leaf: the source row it holds (None: -1 = untouched)"""
+    if t.dim() <= d:
+        return "rank"
+    m = t.movedim(d, 0)
+    k = m.shape[0]
+    if m.numel() == 0:
+        return [] if k == 0 else "empty"
+    flat = m.reshape(k, -1)[:, 0].tolist()
+    return [None if v == -1 else (((v - 1) // 2) // spec["stride"]) % spec["n"] for v in flat]
+
+
+def run_full_case(case):
+    spec = full_spec(case)
+    bs = case["bs"]
+    x, w = M.make_leaves(bs)
+    td = TensorDict({"x": x}, batch_size=bs)
+    rec = []
+    fn = functools.partial(full_fn, spec=spec)
+    outk = case["out"]
+    out = None
+    tmp = None
+    obs = {}
+    try:
+        if outk != "none":
+            obs_shape = list(bs)
+            obs_shape[spec["d"]] = max(0, obs_shape[spec["d"]] + case["odelta"])
+            y = -torch.ones(obs_shape, dtype=torch.int64)
+            out = TensorDict({"y": y, "n": TensorDict({"z": y.clone()}, batch_size=obs_shape)}, batch_size=obs_shape)
+            if outk == "shared":
+                out.share_memory_()
+            elif outk == "memmap":
+                tmp = tempfile.mkdtemp(prefix="c12-f-", dir=M.SCRATCH)
+                out.memmap_(tmp)
+        pool = M.InProcPool(case["workers"], order=case.get("order"), record=lambda item: rec.append(item))
+        kw = {"dim": case["dim"], "chunksize": case["chunksize"], "num_chunks": case["num_chunks"], "pool": pool,
+              "index_with_generator": case["gen"], "pbar": case["pbar"]}
+        totals = []
+        with stub_tqdm(totals):
+            try:
+                if case.get("iter"):
+                    items = list(td.map_iter(fn, shuffle=bool(case.get("shuffle")), **kw))
+                    obs["items"] = [None if it is None else
+                                    ([(((int(it.get("y").reshape(-1)[0]) - 1) // 2) // spec["stride"]) % spec["n"]] if spec["unbound"]
+                                     else pos_along(it.get("y"), spec["d"], spec)) for it in items]
+                    obs["raw_items"] = [None if it is None else [list(it.batch_size), it.get("y").reshape(-1).tolist()] for it in items]
+                else:
+                    r = td.map(fn, out=out, **kw) if out is not None else td.map(fn, **kw)
+                    obs["ret"] = "out" if (out is not None and r is out) else "none" if r is None else "td"
+                    if obs["ret"] == "td":
+                        obs["ret_pos"] = pos_along(r.get("y"), spec["d"], spec)
+                        obs["ret_raw"] = [list(r.batch_size), r.get("y").reshape(-1).tolist()]
+                obs["status"] = "ok"
+            except Exception as e:  # noqa: BLE001
+                obs["status"] = "raise"
+                obs["exc"] = type(e).__name__
+        obs["totals"] = totals
+        if out is not None:
+            obs["out_pos"] = pos_along(out.get("y"), spec["d"], spec) if spec["valid"] else None
+            obs["out_raw"] = out.get("y").reshape(-1).tolist()
+        # the chunks handed to the function, in submission order (shuffle: the consecutive pieces of the random permutation)
+        chunks = []
+        for it in rec:
+            item = it[0] if isinstance(it, tuple) else it
+            xx = item.get("x")
+            if xx.numel() == 0:
+                chunks.append([])
+            elif spec["unbound"]:
+                chunks.append([(int(xx.reshape(-1)[0]) // spec["stride"]) % spec["n"]])
+            else:
+                chunks.append([((v // spec["stride"]) % spec["n"]) for v in xx.movedim(spec["d"], 0).reshape(xx.shape[spec["d"]], -1)[:, 0].tolist()])
+        obs["chunks"] = chunks
+        return obs
+    finally:
+        if tmp is not None:
+            import shutil
+            shutil.rmtree(tmp, ignore_errors=True)
+
+
+EXC_FULL = dict(EXC, IndexError="eindex")
+
+
+def full_model_line(case, obs):
+    bs = case["bs"]
+    spec = full_spec(case)
+    nrows = bs[spec["d"]] if spec["valid"] else 0
+    common = [list(bs), case["dim"], some(case["chunksize"]), some(case["num_chunks"]), case["workers"], case["gen"], case["pbar"]]
+    if case.get("iter"):
+        rp, pi = [], []
+        if case.get("shuffle"):
+            rp = [v for c in obs["chunks"] for v in c]
+            k = len(obs["chunks"])
+            order = [i for i in case.get("order", []) if i < k]
+            pi = order + [i for i in range(k) if i not in order]
+        return sx([Sym("map-iter")] + common + [bool(case.get("shuffle")), case["fn"], list(case["isnone"]), nrows, rp, pi])
+    oshape = list(bs)
+    if spec["valid"]:
+        oshape[spec["d"]] = max(0, oshape[spec["d"]] + case["odelta"])
+    kind = {"none": "none", "regular": "regular", "shared": "shared", "memmap": "shared"}[case["out"]]
+    nout = oshape[spec["d"]] if (spec["valid"] and case["out"] != "none") else 0
+    return sx([Sym("map-full")] + common + [Sym(kind), oshape, case["fn"], list(case["isnone"]), nrows, nout])
+
+
+def full_impl_canon(case, obs):
+    """the observation in the model's vocabulary: [result, pbar total]"""
+    enc = lambda l: [["some", q] if q is not None else "none" for q in l]  # noqa: E731
+    tot = "none" if not obs["totals"] else ["some", "none" if obs["totals"][0] is None else ["some", obs["totals"][0]]]
+    if case.get("iter"):
+        if obs["status"] == "raise":
+            return ["raise", EXC_FULL.get(obs["exc"], obs["exc"])]
+        return ["ok", ["none" if it is None else ["some", enc(it)] for it in obs["items"]]]
+    if obs["status"] == "raise":
+        res = ["raise", EXC_FULL.get(obs["exc"], obs["exc"])]
+    elif case["out"] == "none":
+        res = ["ok", ["ret-none"]] if obs["ret"] == "none" else ["ok", ["ret-cat", enc(obs["ret_pos"])]]
+    else:
+        res = ["ok", ["ret-out" if obs["ret"] == "out" else "ret-none-out" if obs["ret"] == "none" else "ret-other", enc(obs["out_pos"])]]
+    return [res, tot]
+
+
+def oracle_full(case):
+    """the sequential form, computed with torch only: the function applied to the slices of the documented partition, in order;
+    returns None when the case is outside the property's quantifier (invalid dim / arguments, empty dim, out= of another size)"""
+    spec = full_spec(case)
+    bs = case["bs"]
+    if not spec["valid"] or bs[spec["d"]] == 0 or case["odelta"] != 0:
+        return None
+    d, n = spec["d"], bs[spec["d"]]
+    sizes = spec_sizes(n, case["chunksize"], case["num_chunks"], case["workers"])
+    if sizes is None or (case.get("shuffle") and not case["gen"]):
+        return None
+    x, _ = M.make_leaves(bs)
+    pre = (slice(None),) * d
+    idxs, a = [], 0
+    for s_ in ([1] * n if sizes == "rows" else sizes):
+        idxs.append(pre + ((a,) if sizes == "rows" else (slice(a, a + s_),)))
+        a += s_
+    results = []
+    for idx in idxs:
+        xi = x[idx].clone()
+        r = full_fn(TensorDict({"x": xi}, batch_size=xi.shape), spec)
+        results.append(None if r is None else r.get("y"))
+    exp = {"items": results}
+    kept = [r for r in results if r is not None]
+    exp["ret"] = None if not kept else (torch.stack(kept, d) if case["chunksize"] == 0 else torch.cat(kept, d))
+    if case["out"] != "none":
+        y = -torch.ones_like(x)
+        try:
+            for idx, r in zip(idxs, results):
+                if r is not None:
+                    y[idx] = r
+            exp["out"] = y
+        except RuntimeError:
+            exp["out"] = "raise"
+    return exp
+
+
+def judge_full(R, case, obs):
+    exp = oracle_full(case)
+    if exp is None:
+        return
+    sig = {"call": "map_iter" if case.get("iter") else "map", "out": case["out"], "stream": "mapfull"}
+    if obs["status"] == "raise":
+        if exp.get("out") == "raise":
+            return
+        R.oracle_fail("mapfull:raises", case, {"exception": obs["exc"]}, dict(sig, kind="raise", exc=obs["exc"]))
+        return
+    detail = None
+    if case.get("iter"):
+        got = obs["raw_items"]
+        want = [None if r is None else [list(r.shape), r.reshape(-1).tolist()] for r in exp["items"]]
+        if case.get("shuffle"):
+            g = sorted(v for it in got if it is not None for v in it[1])
+            w_ = sorted(v for it in want if it is not None for v in it[1])
+            if g != w_ and case["fn"] in ("rows", "dup") and all(not q for q in case["isnone"]):
+                detail = {"what": "shuffled map_iter does not cover the rows exactly once", "got": g[:40], "want": w_[:40]}
+            elif len(got) != len(want):
+                detail = {"what": "number of yielded items", "got": len(got), "want": len(want)}
+        elif got != want:
+            detail = {"what": "yielded items", "got": got[:8], "want": want[:8]}
+    elif case["out"] == "none":
+        if exp["ret"] is None:
+            if obs["ret"] != "none":
+                detail = {"what": "result where every chunk returned None", "got": obs["ret"]}
+        elif obs["ret"] != "td" or obs["ret_raw"] != [list(exp["ret"].shape), exp["ret"].reshape(-1).tolist()]:
+            detail = {"what": "result", "got": obs.get("ret_raw", obs["ret"]), "want": [list(exp["ret"].shape), exp["ret"].reshape(-1).tolist()]}
+    else:
+        if isinstance(exp["out"], str):
+            detail = {"what": "no exception where writing the result into its slice raises", "got": obs["out_raw"]}
+        elif obs["out_raw"] != exp["out"].reshape(-1).tolist():
+            detail = {"what": "content of out=", "got": obs["out_raw"], "want": exp["out"].reshape(-1).tolist()}
+    if detail is not None:
+        R.oracle_fail("mapfull:differs-from-sequential", case, detail, dict(sig, kind="content", what=detail["what"].split(" ")[0]))
+
+
+def check_map_full(R):
+    """map / map_iter with every parameter (dim incl. negative / invalid, empty dim, chunksize 0, num_chunks, both, pbar, generator,
+    out= regular / shared / memmap of the same or another length, None results, results of another size along dim, shuffle with a
+    chosen completion order) against Model/C12_Map.v, and against the sequential form computed with torch"""
+    rng = R.rng
+    ncases = int(os.environ.get("C12_NFULL", 5000 if R.quick else 80000))
+    cases = [gen_full_case(rng) for _ in range(ncases)]
+    obs = []
+    for ci, case in enumerate(cases):
+        o = call(lambda: run_full_case(case))
+        if o[0] != "ok":
+            raise RuntimeError(f"C12 harness error on {case}: {o[1]}")
+        o = o[1]
+        obs.append(o)
+        spec = full_spec(case)
+        n = case["bs"][spec["d"]] if spec["valid"] else -1
+        R.case(case_key(case), nontrivial=n > 1, sample=case if ci % 1499 == 0 else None)
+        R.count("mapfull:" + ("iter+shuffle" if case.get("shuffle") else "iter" if case.get("iter") else "out=" + case["out"]))
+        R.count("mapfull:dim=" + ("invalid" if not spec["valid"] else "0" if spec["d"] == 0 else "negative" if case["dim"] < 0 else "positive"))
+        R.count("mapfull:fn=" + case["fn"] + ("+none" if any(case["isnone"]) else ""))
+        if n == 0:
+            R.count("mapfull:empty-dim")
+        if case["pbar"]:
+            R.count("mapfull:pbar")
+        if case["odelta"]:
+            R.count("mapfull:out-of-another-length")
+        if case["chunksize"] is not None and case["num_chunks"] is not None:
+            R.count("mapfull:both-chunksize-and-num_chunks")
+        R.count("mapfull:status=" + o["status"])
+        judge_full(R, case, o)
+        R.traces += 1
+    mod = R.model([full_model_line(c, o) for c, o in zip(cases, obs)])
+    for c, o, m in zip(cases, obs, mod):
+        impl = full_impl_canon(c, o)
+        if c.get("iter"):
+            mo = list(m) if m[0] == "raise" else m
+        else:
+            mo = [list(m[0]) if m[0][0] == "raise" else m[0], m[1][1] if m[1][0] == "ok" else "none"]
+            if impl[0][0] == "raise" or mo[0][0] == "raise":
+                # the progress bar is compared on the runs that return
+                impl, mo = impl[0], mo[0]
+        if impl != mo:
+            R.mismatch("map-full:" + ("iter" if c.get("iter") else "map"), c, impl, mo)
+    R.extra["map_full_model_comparisons"] = len(cases)
 
 
 # =================================================================== 4. thread pools under a deterministic executor
@@ -1252,6 +1587,9 @@ def main(R):
         compare_map_model(R, cases, observations)
         tm["inproc_maps_s"] = round(time.time() - t, 1)
         t = time.time()
+        check_map_full(R)
+        tm["map_full_s"] = round(time.time() - t, 1)
+        t = time.time()
         check_apply(R)
         tm["apply_s"] = round(time.time() - t, 1)
         t = time.time()
@@ -1293,6 +1631,19 @@ def replay(body):
             print("model:", run_model(PID, [model_map_line(case)]))
             if obs["status"] in ("ok", "raise"):
                 print("implementation in the model's vocabulary:", impl_map_canon(case, obs))
+    elif op == "mapfull":
+        obs = run_full_case(case)
+        exp = oracle_full(case)
+        print("implementation:", json.dumps({k: v for k, v in obs.items() if k not in ("chunks",)}, default=str)[:3000])
+        print("chunks handed to the function (positions along dim):", obs["chunks"])
+        if exp is not None:
+            print("sequential form: items", [None if r is None else r.reshape(-1).tolist() for r in exp["items"]],
+                  "result", None if exp["ret"] is None else [list(exp["ret"].shape), exp["ret"].reshape(-1).tolist()],
+                  "out", exp["out"] if isinstance(exp.get("out"), str) or exp.get("out") is None else exp["out"].reshape(-1).tolist())
+        else:
+            print("sequential form: outside the property's quantifier (invalid dim / arguments, empty dim, out= of another length)")
+        print("model:", run_model(PID, [full_model_line(case, obs)]))
+        print("implementation in the model's vocabulary:", full_impl_canon(case, obs))
     elif op == "split":
         n, cs, nc, nw, gen = case["n"], case["chunksize"], case["num_chunks"], case["workers"], case["gen"]
         print("implementation delegates to:", split_args_impl(n, cs, nc, nw, gen))
